@@ -271,6 +271,28 @@ def run(ctx):
             except Exception as e:
                 ctx.crash('constructor-directed', j, e)
 
+    # directed: NamedTuple classes. They are not among the documented types, and yet a converter is built for them (as for a list
+    # subclass): whatever it returns has to be a member - the fields holding the elements given - or the type has to be refused
+    if ctx.shard == 0:
+        class _Point(_t.NamedTuple):
+            x: int
+            y: int = 0
+
+        class _Pair(_t.NamedTuple):
+            a: int
+            b: str
+        for j, (TT, vv) in enumerate(((_Point, [1, 2]), (_Point, [1]), (_Point, ['a', 'b']), (_t.List[_Point], [[1, 2]]), (_Pair, [1, 's']), (_t.Optional[_Point], [3, 4]))):
+            try:
+                o = observe(env.from_data, vv, TT)
+                ctx.count('namedtuple_cases')
+                res = o.val[0] if o.kind == 'value' and isinstance(o.val, list) else (o.val if o.kind == 'value' else None)
+                member = o.kind == 'value' and isinstance(res, tuple) and all(type(e) in (int, str) for e in res)
+                refused_cleanly = o.kind == 'converr' or (o.kind == 'escape' and isinstance(o.exc, (TypeError, env.UnsupportedAnnotation)))
+                if not (member or refused_cleanly):
+                    ctx.violation('model-vs-pane', 'namedtuple', j, {'type': short(TT, 80), 'value': short(vv), 'pane': o.brief()[:200]}, mech='namedtuple-target-returns-a-non-member')
+            except Exception as e:
+                ctx.crash('namedtuple', j, e)
+
     # directed: mappings whose data keys differ but convert to equal typed keys ('1.0' / '1.00' as Decimal, 'a/b' / 'a//b' as a path)
     from ..tyast import Ty as _Ty
     COLLIDING = (('decimal', ('1.0', '1.00', 1)), ('fraction', ('1/2', '2/4', 0.5)), ('path', ('a/b', 'a//b', 'a/b/')), ('float', (1, 1.0)),
